@@ -709,7 +709,7 @@ func c10pricePart(t *testing.T, f *c10fix, tr *Trace, rng *Rng) {
 	}
 	// composed update of both generations: boundary-directed windows (dur around 0, T, tau) and random ones
 	Ts := []uint64{0, 1, 2, 3, 7, 10, 60, 600, 3600, 86400, 604800, 1 << 32}
-	n := scale(400, 6000)
+	n := scale(400, 12000)
 	for i := 0; i < n; i++ {
 		var top sdk.Dec
 		switch rng.Intn(4) {
@@ -956,7 +956,8 @@ func (s *c10seq) randomOps(rng *Rng, cfg c10cfg) {
 				s.setDebt(nt, !rng.Chance(15))
 			}
 			s.tick(time.Duration(dt) * time.Second)
-		case r < 92:
+		case r < 92 && s.kind != "lend":
+			// (not after a lend sweep: it seizes both borrows of the fixture, the second auction would share the limit book)
 			// limit deposit aimed at the premium bucket the auction is in or will reach
 			prem := int64(0)
 			if a.CollateralTokenOraclePrice.IsPositive() {
@@ -1332,7 +1333,7 @@ func TestC10(t *testing.T) {
 	s.bid("b1", sdk.NewInt(53000000))
 	s.tick(20 * time.Minute)
 	s.bid("b2", sdk.NewInt(100000000))
-	nl := scale(60, 1000)
+	nl := scale(80, 3000)
 	for i := 0; i < nl; i++ {
 		cfg := c10genCfg(f, rng)
 		cfg.pair = 0
@@ -1360,7 +1361,13 @@ func TestC10(t *testing.T) {
 	s1 = c10start1(t, f, tr, c1)
 	s1.tick1(250 * time.Second)
 	s1.bid1("b1", sdk.NewInt(1000000)) // collateral sold out below the target: the collector covers the rest
-	n1 := scale(150, 3000)
+	// D8 on a live first-generation auction: block time exactly at EndTime, window 10 s
+	c1 = c10cfg1{pair: 0, amountIn: sdk.NewInt(1000000), amountOut: sdk.NewInt(1000000), dropTo: 1400000, T: 10, buffer: "1.2", cusp: "0.7", collector: 0}
+	s1 = c10start1(t, f, tr, c1)
+	s1.tick1(9 * time.Second)
+	s1.tick1(1 * time.Second)
+	s1.tick1(1 * time.Second)
+	n1 := scale(250, 10000)
 	for i := 0; i < n1; i++ {
 		cfg := c10genCfg1(f, rng)
 		s := c10start1(t, f, tr, cfg)
@@ -1371,7 +1378,7 @@ func TestC10(t *testing.T) {
 	}
 
 	// ---- generated sequences
-	n := scale(250, 4000)
+	n := scale(400, 16000)
 	for i := 0; i < n; i++ {
 		cfg := c10genCfg(f, rng)
 		s := c10start(t, f, tr, cfg)
